@@ -254,6 +254,17 @@ pub fn run_c03(prop: &str, seed: u64, index: usize, tier: Tier) -> RunReport {
         for f in fails {
             rep.found.push(Found { prop: prop.to_string(), clause: f.clause, detail: f.detail, case: case.clone(), fault: Fault::Crash { at: crash_point_of(&d, p, None), second: None, cont: vec![] } });
         }
+        // crash, recover, keep working, crash again (a sample of the points)
+        if rep.found.is_empty() && (pi % 8 == (seed % 8) as usize || (p.byte.is_some() && pi % 3 == 0)) {
+            let cseed = mix(&[seed, p.idx as u64, 0xC03C]);
+            let (fails2, used) = crate::crash::test_c03_continue(&d, &case, p.b, &image, Cont::Generate(cseed), &where_);
+            rep.evaluations += 1 + used.len() as u64;
+            rep.count("crash_recover_continue_crash_again", 1);
+            rep.count("fault_second_process_crash", used.len() as u64);
+            for f in fails2 {
+                rep.found.push(Found { prop: prop.to_string(), clause: f.clause, detail: f.detail, case: case.clone(), fault: Fault::Crash { at: crash_point_of(&d, p, None), second: None, cont: used.clone() } });
+            }
+        }
         let after_unlink = p.idx > 0 && matches!(fs.trace[p.idx - 1].eff, Eff::Unlink { .. });
         if after_unlink {
             rep.count("crash_directly_after_unlink", 1);
